@@ -185,10 +185,10 @@ def build_generic(sc, sid, container_fn, d_extra=()):
             for l in o:
                 out.add("\t" + l % {"n": n})
             out.tagged((fidx, cidx), stmt, "\t")
-            for l in cl:
-                out.add("\t" + l % {"n": n})
             for l in post:
                 out.add("\t" + l)
+            for l in cl:
+                out.add("\t" + l % {"n": n})
             for l in ftr:
                 out.add(l)
             out.add("")
@@ -222,3 +222,59 @@ def build_generic(sc, sid, container_fn, d_extra=()):
         fn, ln, _ = tags[(f, i)]
         expect.add((fn, ln, code))
     return {"id": sid, "pkgs": pkgs}, expect, tags
+
+
+# ------------------------------------------------------------------ Constructor.tla
+CTOR_SPELL_1 = {1: "NewT", 2: "NewT trailing words"}
+CTOR_SPELL_2 = {1: "NewT, MakeT", 2: "NewT,MakeT", 3: "NewT ,MakeT", 4: "NewT, MakeT and trailing words", 5: "NewT,  MakeT"}
+
+CTOR_STMT = {
+    "lit": ("_ = %(t)s{X: %(n)d}", "var g%(n)d = %(t)s{X: %(n)d}"),
+    "addrLit": ("_ = &%(t)s{X: %(n)d}", "var g%(n)d = &%(t)s{X: %(n)d}"),
+    "elidedVal": ("_ = []%(t)s{{X: %(n)d}}", "var g%(n)d = []%(t)s{{X: %(n)d}}"),
+    "elidedPtr": ("_ = []*%(t)s{{X: %(n)d}}", None),
+    "elidedMap": ("_ = map[int]%(t)s{0: {X: %(n)d}}", None),
+    "new": ("v%(n)d := new(%(t)s)", "var g%(n)d = new(%(t)s)"),
+    "varZero": ("var v%(n)d %(t)s", "var g%(n)d %(t)s"),
+    "varPtr": ("var v%(n)d *%(t)s", "var g%(n)d *%(t)s"),
+    "varBlank": ("var _ %(t)s", None),
+    "onU": ("_ = %(q)sU{X: %(n)d}", None),
+}
+
+
+def ctor_ann(ann):
+    a = dict(ann)
+    if a.get("ctors"):
+        tab = CTOR_SPELL_1 if len(a["ctors"]) == 1 else CTOR_SPELL_2
+        a["ctor_spelling"] = tab.get(a.get("csp", 1), tab[1])
+    return a
+
+
+def ctor_container(c, n, pkg, qual, handles):
+    sp = c.get("sp", "direct")
+    t = {"direct": qual + "T", "rename": qual + "T", "alias": "TA", "alias3": "q.TA", "paren": "(" + qual + "T)"}[sp]
+    k = c["kind"]
+    tmpl = CTOR_STMT[c["stmt"]][1 if k == "pkgdecl" else 0]
+    stmt = tmpl % {"t": t, "n": n, "q": qual}
+    post = []
+    if k != "pkgdecl" and c["stmt"] in ("new", "varZero", "varPtr"):
+        post = ["_ = v%d" % n]
+    if k == "pkgdecl":
+        return [], [], stmt, [], []
+    hdr = {
+        "ctor1": "func NewT() {",
+        "ctor2": "func MakeT() {",
+        "other": "func fn%d() {" % n,
+        "pmeth": "func (r%d *T) m%d() {" % (n, n),
+        "ometh": "func (o%d *O) m%d() {" % (n, n),
+        "init": "func init() {",
+        "pkgvar": "var _ = func() int {",
+    }[k]
+    ftr = ["}"] if k != "pkgvar" else ["\treturn 0", "}()"]
+    return [hdr], [], stmt, post, ftr
+
+
+def build_ctor(sc, sid):
+    sc = dict(sc)
+    sc["ann"] = ctor_ann(sc["ann"])
+    return build_generic(sc, sid, ctor_container)
